@@ -692,6 +692,21 @@ class ScriptGen:
         for _ in range(rng.randint(1, 3)):
             a, b = rng.sample(pool, 2) if len(pool) >= 2 else (pool[0], pool[0])
             cmds.append({"k": "assert", "term": T("not", (T("=", (a, b), "Bool"),))})
+        # the end points of a generated chain are kept apart half of the time: then only a further disjunct can hold
+        ends = []
+        for c in cmds:
+            for d in ([c["term"]] + list(c["term"].args)) + [x for a in c["term"].args for x in a.args]:
+                if d.op == "and" and len(d.args) == 2 and all(e.op == "=" and len(e.args) == 2 for e in d.args):
+                    l, r = [to_smt(x, "ref") for x in d.args[0].args], [to_smt(x, "ref") for x in d.args[1].args]
+                    shared = [x for x in l if x in r]
+                    if len(shared) == 1:
+                        a = [x for x in d.args[0].args if to_smt(x, "ref") != shared[0]]
+                        b = [x for x in d.args[1].args if to_smt(x, "ref") != shared[0]]
+                        if a and b:
+                            ends.append((a[0], b[0]))
+        if ends and rng.random() < 0.5:
+            a, b = rng.choice(ends)
+            cmds.append({"k": "assert", "term": T("not", (T("=", (a, b), "Bool"),))})
         rng.shuffle(cmds)
         return cmds
 
